@@ -87,6 +87,10 @@ PATTERNS = [
     (r"\bvalidate_not_cpi_by_stack_height\s*\(", lambda m: "not_cpi"),
     (r"\bvalidate_not_cpi_with_sysvar\s*\(", lambda m: "not_cpi_sysvar"),
     (r"\.account_flags\s*=[^=]", lambda m: "copy_flags"),
+    (r"MarginfiError::AccountAlreadyMigrated\b", lambda m: "migrated_check"),
+    (r"\.migrated_to\s*=[^=]", lambda m: "set_migrated_to"),
+    (r"\.lending_account\s*=\s*LendingAccount::zeroed", lambda m: "zero_array"),
+    (r"\.lending_account\s*=\s*(?!LendingAccount::zeroed)[^=\s]", lambda m: "move_array"),
     (r"liquidation_receiver\s*=\s*Pubkey::default\s*\(\)", lambda m: "clear_receiver"),
     (r"MarginfiError::WorseHealthPostLiquidation\b", lambda m: "worse_health_check"),
     (r"MarginfiError::LiquidationPremiumTooHigh\b", lambda m: "premium_check"),
@@ -191,7 +195,8 @@ SIMPLE = {"asset_tags": "assetTags", "capacity": "capacity", "find_or_create": "
           "premium_check": "premiumCheck", "call_start_receivership": "callStartReceivership",
           "call_end_receivership": "callEndReceivership", "call_can_start": "callCanStart",
           "zero_asset_price_check": "zeroAssetPriceCheck", "zero_liab_price_check": "zeroLiabPriceCheck",
-          "over_liq_check": "overLiqCheck"}
+          "over_liq_check": "overLiqCheck", "migrated_check": "migratedCheck", "set_migrated_to": "setMigratedTo",
+          "zero_array": "zeroArray", "move_array": "moveArray"}
 
 PRELUDE = """-- GENERATED by translator/skeleton.py from programs/marginfi/src/instructions/**. Do not edit.
 namespace Mfi.Gen.Skel
@@ -214,6 +219,7 @@ inductive Ev
   | setFlag (f : AFlag) | unsetFlag (f : AFlag) | returnOk | validateIxs | notCpi | notCpiSysvar | copyFlags
   | clearReceiver | worseHealthCheck | premiumCheck | callStartReceivership | callEndReceivership | callCanStart
   | zeroAssetPriceCheck | zeroLiabPriceCheck | overLiqCheck
+  | migratedCheck | setMigratedTo | zeroArray | moveArray
   deriving DecidableEq, Repr
 """
 
